@@ -5,6 +5,7 @@ use crate::stream::{
     SubframeHeaderType,
 };
 use crate::verif_env::*;
+use crate::verif_env::refmodel;
 
 fn sbc32(bits: u32) -> SignedBitCount<32> {
     SignedBitCount::<32>::try_from(bits).unwrap()
@@ -33,98 +34,337 @@ fn hdr(block: u16, ca: ChannelAssignment, bps: BitsPerSample) -> FrameHeader {
 // failed check of any kind.
 // ===========================================================================
 
-// @harness prop=C04 tier=quick expect=pass timeout=900
-// @units decode::read_residuals decode::read_residuals::read_block stream::ResidualPartitionHeader::from_reader
-// @bound 2 residual slots; predictor order 0..=2; coding method, 4-bit partition order, rice/escape parameters and every residual field symbolic; unary run <= 7; end of data possible at every read
+
+// ---------------------------------------------------------------------------
+// Subframe decoding against the RFC reference model (C03) and for panic
+// freedom on arbitrary field values (C04).
+//
+// Shape of a harness = the *structural* fields of the stream, pinned to
+// concrete values in the script (subframe type code, wasted-bits flag, residual
+// coding method, partition order) plus bits-per-sample and block length.
+// Everything else - samples, warm-up, precision, shift, coefficients, Rice
+// parameters, escape widths, unary quotients, residual bits, the wasted-bits
+// count - is symbolic.  Reads never fail in these harnesses (see DESIGN 2.2:
+// an Err(io::Error) on the path defeats constant folding); truncation is
+// covered by the c04_read_residuals_any* harnesses.
+// ---------------------------------------------------------------------------
+
+macro_rules! sub_diff {
+    ($name:ident, $int:ty, $max:expr, $bps:expr, $n:expr, $slots:expr, $umask:expr, [$( ($idx:expr, $val:expr) ),*]) => {
+        #[kani::proof]
+        #[kani::unwind(10)]
+        fn $name() {
+            let mut vals: [u64; $slots] = kani::any();
+            $( vals[$idx] = $val; )*
+            let mut r1 = ModelBits::new(Script::new(&vals), $umask);
+            let mut ch = [0 as $int; $n];
+            let res = read_subframe::<$max, _, $int>(
+                &mut r1,
+                SignedBitCount::<$max>::new::<$bps>(),
+                &mut ch,
+            );
+            let mut r2 = ModelBits::new(Script::new(&vals), $umask);
+            let mut exp = [0i128; $n];
+            let verdict = refmodel::subframe(&mut r2, $bps, $n, &mut exp);
+            if verdict == refmodel::Verdict::Valid {
+                // C03: a valid subframe decodes to exactly the RFC's samples
+                assert!(res.is_ok());
+                let mut i = 0;
+                while i < $n {
+                    assert!(i128::from(ch[i]) == exp[i]);
+                    i += 1;
+                }
+                assert!(r1.pos == r2.pos);
+            }
+            kani::cover!(verdict == refmodel::Verdict::Valid);
+            std::mem::forget(res);
+        }
+    };
+}
+
+// layout of the pinned slots: [0]=padding bit, [1]=6-bit type code, [2]=wasted flag,
+// FIXED order k (no wasted bits): [3+k]=coding method, [4+k]=partition order
+// LPC order k (no wasted bits): [3+k]=precision-1, [4+k]=shift, [5+k..5+2k]=coefficients, [5+2k]=method, [6+2k]=partition order
+
+// @harness prop=C03,C04 tier=quick expect=pass timeout=300
+// @units decode::read_subframe<32,i32> stream::SubframeHeader::from_reader
+// @bound CONSTANT subframe, 16 bps, block 3, wasted-bits flag set with symbolic unary count <= 63 (covers wasted >= bps), sample value symbolic
+// @oracle reference model verdict Valid => Ok, identical samples, identical bit position; never a failed check
+sub_diff!(c03_sub_const_b16_w, i32, 32, 16, 3, 6, 63, [(0, 0), (1, 0), (2, 1)]);
+
+// @harness prop=C03,C04 tier=thorough expect=pass timeout=300
+// @units decode::read_subframe<32,i32>
+// @bound CONSTANT subframe, 32 bps, block 2, no wasted bits
+sub_diff!(c03_sub_const_b32, i32, 32, 32, 2, 5, 63, [(0, 0), (1, 0), (2, 0)]);
+
+// @harness prop=C03,C04 tier=thorough expect=pass timeout=300
+// @units decode::read_subframe<33,i64>
+// @bound CONSTANT subframe on the 33-bit side-channel path, block 2, wasted-bits flag set (count symbolic <= 63)
+sub_diff!(c03_sub_const_wide_w, i64, 33, 33, 2, 6, 63, [(0, 0), (1, 0), (2, 1)]);
+
+// @harness prop=C03,C04 tier=quick expect=pass timeout=300
+// @units decode::read_subframe<32,i32>
+// @bound VERBATIM subframe, 16 bps, block 3, wasted-bits flag set (count symbolic <= 63), samples symbolic
+sub_diff!(c03_sub_verbatim_b16_w, i32, 32, 16, 3, 8, 63, [(0, 0), (1, 1), (2, 1)]);
+
+// @harness prop=C03,C04 tier=thorough expect=pass timeout=300
+// @units decode::read_subframe<32,i32>
+// @bound VERBATIM subframe, 4 bps (STREAMINFO-referenced depth), block 4, no wasted bits
+sub_diff!(c03_sub_verbatim_b4, i32, 32, 4, 4, 8, 63, [(0, 0), (1, 1), (2, 0)]);
+
+// @harness prop=C03,C04 tier=quick expect=pass timeout=300
+// @units decode::read_subframe<33,i64>
+// @bound VERBATIM subframe on the 33-bit side-channel path, block 2
+sub_diff!(c03_sub_verbatim_wide, i64, 33, 33, 2, 6, 63, [(0, 0), (1, 1), (2, 0)]);
+
+// @harness prop=C03,C04 tier=thorough expect=pass timeout=600
+// @units decode::read_subframe<32,i32> decode::read_fixed_subframe decode::read_residuals decode::predict
+// @bound FIXED order 0, 16 bps, block 2, Rice method 0, partition order 0; Rice parameter/escape width/quotients (<= 7)/residual bits symbolic
+sub_diff!(c03_sub_fixed0_b16_n2, i32, 32, 16, 2, 12, 7, [(0, 0), (1, 8), (2, 0), (3, 0), (4, 0)]);
+
+// @harness prop=C03,C04 tier=quick expect=pass timeout=600
+// @units decode::read_subframe<32,i32> decode::read_fixed_subframe decode::read_residuals decode::predict
+// @bound FIXED order 1, 16 bps, block 3, Rice method 0, partition order 0
+sub_diff!(c03_sub_fixed1_b16_n3, i32, 32, 16, 3, 13, 7, [(0, 0), (1, 9), (2, 0), (4, 0), (5, 0)]);
+
+// @harness prop=C03,C04 tier=quick expect=pass timeout=600
+// @units decode::read_subframe<32,i32> decode::read_fixed_subframe decode::read_residuals decode::predict
+// @bound FIXED order 2, 32 bps (full-scale warm-up), block 4, Rice2 method 1 (5-bit parameters), partition order 0
+sub_diff!(c03_sub_fixed2_b32_n4, i32, 32, 32, 4, 14, 7, [(0, 0), (1, 10), (2, 0), (5, 1), (6, 0)]);
+
+// @harness prop=C03,C04 tier=thorough expect=pass timeout=600
+// @units decode::read_subframe<32,i32> decode::read_fixed_subframe decode::read_residuals decode::predict
+// @bound FIXED order 3, 8 bps, block 5, method 0, partition order 0
+sub_diff!(c03_sub_fixed3_b8_n5, i32, 32, 8, 5, 15, 7, [(0, 0), (1, 11), (2, 0), (6, 0), (7, 0)]);
+
+// @harness prop=C03,C04 tier=thorough expect=pass timeout=600
+// @units decode::read_subframe<32,i32> decode::read_fixed_subframe decode::read_residuals decode::predict
+// @bound FIXED order 4, 24 bps, block 6, method 0, partition order 0
+sub_diff!(c03_sub_fixed4_b24_n6, i32, 32, 24, 6, 16, 7, [(0, 0), (1, 12), (2, 0), (7, 0), (8, 0)]);
+
+// @harness prop=C03,C04 tier=thorough expect=pass timeout=600
+// @units decode::read_subframe<32,i32> decode::read_fixed_subframe decode::read_residuals decode::predict
+// @bound FIXED order 1, 16 bps, block 4, method 1, partition order 1 (two partitions: 1 + 2 residuals)
+sub_diff!(c03_sub_fixed1_b16_n4_po1, i32, 32, 16, 4, 18, 7, [(0, 0), (1, 9), (2, 0), (4, 1), (5, 1)]);
+
+// @harness prop=C03,C04 tier=quick expect=pass timeout=600
+// @units decode::read_subframe<32,i32> decode::read_lpc_subframe decode::read_residuals decode::predict
+// @bound LPC order 1, 16 bps, block 3, method 0, partition order 0; precision field pinned to 3 bits (coefficient in -4..=3), shift (5-bit signed) and coefficient symbolic
+sub_diff!(c03_sub_lpc1_b16_n3_p3, i32, 32, 16, 3, 16, 7, [(0, 0), (1, 32), (2, 0), (4, 2), (7, 0), (8, 0)]);
+
+// @harness prop=C03,C04 tier=thorough expect=pass timeout=3000
+// @units decode::read_subframe<32,i32> decode::read_lpc_subframe decode::read_residuals decode::predict
+// @bound LPC order 1, 16 bps, block 3, method 0, partition order 0; precision (1..=15 bits, and the illegal 0b1111), shift (5-bit signed), coefficient all symbolic
+sub_diff!(c03_sub_lpc1_b16_n3, i32, 32, 16, 3, 16, 7, [(0, 0), (1, 32), (2, 0), (7, 0), (8, 0)]);
+
+// @harness prop=C03,C04 tier=quick expect=pass timeout=900
+// @units decode::read_subframe<32,i32> decode::read_lpc_subframe decode::read_residuals decode::predict
+// @bound LPC order 2, 32 bps (full-scale warm-up), block 4, method 1, partition order 0; precision pinned to 4 bits (coefficients -8..=7), shift and both coefficients symbolic
+sub_diff!(c03_sub_lpc2_b32_n4_p4, i32, 32, 32, 4, 18, 7, [(0, 0), (1, 33), (2, 0), (5, 3), (9, 1), (10, 0)]);
+
+// @harness prop=C03,C04 tier=thorough expect=pass timeout=3000
+// @units decode::read_subframe<32,i32> decode::read_lpc_subframe decode::read_residuals decode::predict
+// @bound LPC order 2, 32 bps, block 4, method 1, partition order 0; precision, shift, both coefficients symbolic (up to 15 bits)
+sub_diff!(c03_sub_lpc2_b32_n4, i32, 32, 32, 4, 18, 7, [(0, 0), (1, 33), (2, 0), (9, 1), (10, 0)]);
+
+// @harness prop=C03,C04 tier=quick expect=pass timeout=900
+// @units decode::read_subframe<33,i64> decode::read_lpc_subframe decode::read_residuals(i64) decode::predict<i64>
+// @bound LPC order 1 on the 33-bit side-channel path, block 3, method 0, partition order 0; precision pinned to 3 bits
+sub_diff!(c03_sub_lpc1_wide_n3_p3, i64, 33, 33, 3, 16, 7, [(0, 0), (1, 32), (2, 0), (4, 2), (7, 0), (8, 0)]);
+
+// @harness prop=C03,C04 tier=thorough expect=pass timeout=3000
+// @units decode::read_subframe<33,i64> decode::read_lpc_subframe decode::read_residuals(i64) decode::predict<i64>
+// @bound LPC order 1 on the 33-bit side-channel path, block 3, method 0, partition order 0; precision symbolic
+sub_diff!(c03_sub_lpc1_wide_n3, i64, 33, 33, 3, 16, 7, [(0, 0), (1, 32), (2, 0), (7, 0), (8, 0)]);
+
+// @harness prop=C03,C04 tier=thorough expect=pass timeout=1800
+// @units decode::read_subframe<32,i32> decode::read_fixed_subframe decode::read_residuals decode::predict
+// @bound FIXED order 2, 16 bps, block 8, method 0, partition order 2 (partitions of 0.. wait 2: 8>>2 = 2 = order: the empty-first-partition corner)
+sub_diff!(c03_sub_fixed2_b16_n8_po2, i32, 32, 16, 8, 28, 7, [(0, 0), (1, 10), (2, 0), (5, 0), (6, 2)]);
+
+// @harness prop=C03,C04 tier=thorough expect=pass timeout=1800
+// @units decode::read_subframe<32,i32> decode::read_fixed_subframe decode::read_residuals decode::predict
+// @bound FIXED order 1, 16 bps, block 8, method 0, partition order 2 (partitions of 1,2,2,2 residuals)
+sub_diff!(c03_sub_fixed1_b16_n8_po2, i32, 32, 16, 8, 28, 7, [(0, 0), (1, 9), (2, 0), (4, 0), (5, 2)]);
+
+// @harness prop=C03,C04 tier=thorough expect=pass timeout=1800
+// @units decode::read_subframe<32,i32> decode::read_lpc_subframe decode::read_residuals decode::predict
+// @bound LPC order 3, 16 bps, block 5, method 0, partition order 0
+sub_diff!(c03_sub_lpc3_b16_n5, i32, 32, 16, 5, 22, 7, [(0, 0), (1, 34), (2, 0), (11, 0), (12, 0)]);
+
+// @harness prop=C03,C04 tier=thorough expect=pass timeout=1800
+// @units decode::read_subframe<32,i32> decode::read_lpc_subframe decode::read_residuals decode::predict
+// @bound LPC order 4, 24 bps, block 6, method 1, partition order 0
+sub_diff!(c03_sub_lpc4_b24_n6, i32, 32, 24, 6, 26, 7, [(0, 0), (1, 35), (2, 0), (13, 1), (14, 0)]);
+
+// @harness prop=C03,C04 tier=thorough expect=pass timeout=1800
+// @units decode::read_subframe<32,i32> decode::read_fixed_subframe decode::read_residuals decode::predict
+// @bound FIXED order 2, 12 bps, block 4, wasted-bits flag set (count symbolic <= 7 ... unary mask 7), method 0, partition order 0
+sub_diff!(c03_sub_fixed2_b12_n4_w, i32, 32, 12, 4, 16, 7, [(0, 0), (1, 10), (2, 1), (6, 0), (7, 0)]);
+
+// vacuity twin for the sub_diff family: the Valid branch is reachable
+// @harness prop=C03,C04 tier=quick expect=fail timeout=600
+// @units decode::read_subframe<32,i32>
+// @bound reachability witness: same shape as c03_sub_fixed1_b16_n3 with a final assert(false) inside the Valid branch
 #[kani::proof]
 #[kani::unwind(10)]
-fn c04_read_residuals_n2() {
+fn c03_sub_fixed1_twin() {
+    let mut vals: [u64; 13] = kani::any();
+    vals[0] = 0;
+    vals[1] = 9;
+    vals[2] = 0;
+    vals[4] = 0;
+    vals[5] = 0;
+    let mut r1 = ModelBits::new(Script::new(&vals), 7);
+    let mut ch = [0i32; 3];
+    let res = read_subframe::<32, _, i32>(&mut r1, SignedBitCount::<32>::new::<16>(), &mut ch);
+    let mut r2 = ModelBits::new(Script::new(&vals), 7);
+    let mut exp = [0i128; 3];
+    let verdict = refmodel::subframe(&mut r2, 16, 3, &mut exp);
+    if verdict == refmodel::Verdict::Valid && res.is_ok() {
+        assert!(false);
+    }
+    std::mem::forget(res);
+}
+
+// Fully nondeterministic stream, end of data possible at every read: the only
+// harness family that explores truncation inside the residual section.
+// @harness prop=C04 tier=thorough expect=pass timeout=2400
+// @units decode::read_residuals decode::read_residuals::read_block stream::ResidualPartitionHeader::from_reader
+// @bound 2 residual slots; predictor order 0..=2; coding method, 4-bit partition order (all 16), rice/escape parameters and every residual field symbolic; unary run <= 7; end of data possible at every read
+#[kani::proof]
+#[kani::unwind(6)]
+fn c04_read_residuals_any_n2() {
     let mut r = SymBits::arbitrary(7);
     let order: usize = kani::any();
     kani::assume(order <= 2);
     let mut res = [0i32; 2];
-    let _ = read_residuals(&mut r, order, &mut res);
+    let x = read_residuals(&mut r, order, &mut res);
+    std::mem::forget(x);
 }
 
-// @harness prop=C04 tier=thorough expect=pass timeout=1800
-// @units decode::read_residuals decode::read_residuals::read_block stream::ResidualPartitionHeader::from_reader
-// @bound 4 residual slots; predictor order 0..=4; everything else as c04_read_residuals_n2
-#[kani::proof]
-#[kani::unwind(10)]
-fn c04_read_residuals_n4() {
-    let mut r = SymBits::arbitrary(7);
-    let order: usize = kani::any();
-    kani::assume(order <= 4);
-    let mut res = [0i32; 4];
-    let _ = read_residuals(&mut r, order, &mut res);
-}
-
-// @harness prop=C04 tier=thorough expect=pass timeout=1800
+// @harness prop=C04 tier=thorough expect=pass timeout=2400
 // @units decode::read_residuals(i64) decode::read_residuals::read_block
-// @bound wide (33-bit side channel) instantiation, 2 residual slots, predictor order 0..=2
+// @bound wide (33-bit side channel) instantiation, 2 residual slots, predictor order 1, otherwise as c04_read_residuals_any_n2
 #[kani::proof]
-#[kani::unwind(10)]
-fn c04_read_residuals_wide_n2() {
+#[kani::unwind(6)]
+fn c04_read_residuals_any_wide_n2() {
     let mut r = SymBits::arbitrary(7);
-    let order: usize = kani::any();
-    kani::assume(order <= 2);
     let mut res = [0i64; 2];
-    let _ = read_residuals(&mut r, order, &mut res);
+    let x = read_residuals(&mut r, 1, &mut res);
+    std::mem::forget(x);
 }
 
-// @harness prop=C04 tier=quick expect=pass timeout=600
-// @units decode::read_subframe<32,i32> stream::SubframeHeader::from_reader stream::SubframeHeaderType::from_reader
-// @bound CONSTANT and VERBATIM subframes (type code pinned to 0 or 1, every other field symbolic incl. reserved bit and wasted-bits unary <= 63), bits-per-sample 1..=32, 2 samples, truncation after any field
+// every partition order a 4-bit field can hold, for a tiny block: too-large
+// orders must be an error, never a panic (finding F01)
+// @harness prop=C04,C05 tier=quick expect=pass timeout=600
+// @units decode::read_residuals decode::read_residuals::read_block
+// @bound block 4 (predictor order 1, 3 residuals), coding methods 0 and 1, partition order pinned to each of 0..=15 in turn, all other fields symbolic
+// @oracle partition order > 2 (block not divisible / smaller than the partition count) => Err(InvalidPartitionOrder); never a failed check
 #[kani::proof]
-#[kani::unwind(10)]
-fn c04_subframe_const_verbatim() {
-    let vals: [u64; 8] = kani::any();
-    kani::assume(vals[1] & 63 <= 1);
-    let mut src = Script::new(&vals);
-    src.eof_at = kani::any();
-    let mut r = ModelBits::new(src, 63);
-    let mut ch = [0i32; 2];
-    let res = read_subframe::<32, _, i32>(&mut r, any_bps32(), &mut ch);
-    kani::cover!(res.is_ok());
-    kani::cover!(matches!(res, Err(Error::ExcessiveWastedBits)));
-}
-
-// @harness prop=C04 tier=quick expect=pass timeout=600
-// @units decode::read_subframe<33,i64>
-// @bound as c04_subframe_const_verbatim for the 33-bit side-channel instantiation (bits-per-sample 33)
-#[kani::proof]
-#[kani::unwind(10)]
-fn c04_subframe_wide_const_verbatim() {
-    let vals: [u64; 8] = kani::any();
-    kani::assume(vals[1] & 63 <= 1);
-    let mut src = Script::new(&vals);
-    src.eof_at = kani::any();
-    let mut r = ModelBits::new(src, 63);
-    let mut ch = [0i64; 2];
-    let res = read_subframe::<33, _, i64>(&mut r, SignedBitCount::<33>::new::<33>(), &mut ch);
-    kani::cover!(res.is_ok());
-}
-
-// @harness prop=C04 tier=quick expect=pass timeout=600
-// @units decode::read_subframe (reserved subframe type codes)
-// @bound every 6-bit type code that is neither CONSTANT, VERBATIM, FIXED 0-4 nor LPC: must be an error, never a panic
-// @oracle reserved codes => Err(InvalidSubframeHeaderType); set pad bit => Err(InvalidSubframeHeader)
-#[kani::proof]
-#[kani::unwind(10)]
-fn c04_subframe_reserved_types() {
-    let vals: [u64; 4] = kani::any();
-    let t = vals[1] & 63;
-    kani::assume((t >= 2 && t < 8) || (t > 12 && t < 32) || vals[0] & 1 == 1);
-    let mut r = ModelBits::new(Script::new(&vals), 63);
-    let mut ch = [0i32; 2];
-    let res = read_subframe::<32, _, i32>(&mut r, any_bps32(), &mut ch);
-    assert!(res.is_err());
-    if vals[0] & 1 == 1 {
-        assert!(matches!(res, Err(Error::InvalidSubframeHeader)));
-    } else {
-        assert!(matches!(res, Err(Error::InvalidSubframeHeaderType)));
+#[kani::unwind(17)]
+fn c04_residuals_every_partition_order() {
+    let mut po = 0u64;
+    while po < 16 {
+        let mut vals: [u64; 16] = kani::any();
+        vals[0] = if po % 2 == 0 { 0 } else { 1 };
+        vals[1] = po;
+        let mut r = ModelBits::new(Script::new(&vals), 7);
+        let mut res = [0i32; 3];
+        let x = read_residuals(&mut r, 1, &mut res);
+        if po > 2 {
+            assert!(matches!(x, Err(Error::InvalidPartitionOrder)));
+        }
+        std::mem::forget(x);
+        po += 1;
     }
 }
+
+// illegal subframe parameters must be rejected (C05 must-reject classes)
+macro_rules! sub_reject {
+    ($name:ident, $bps:expr, $n:expr, $slots:expr, [$( ($idx:expr, $val:expr) ),*], $trip:expr, $pat:pat) => {
+        #[kani::proof]
+        #[kani::unwind(10)]
+        fn $name() {
+            let mut vals: [u64; $slots] = kani::any();
+            $( vals[$idx] = $val; )*
+            let mut src = Script::new(&vals);
+            // no field may be consumed after the one that makes the input illegal
+            src.trip_at = $trip;
+            let mut r = ModelBits::new(src, 63);
+            let mut ch = [0i32; $n];
+            let res = read_subframe::<32, _, i32>(&mut r, SignedBitCount::<32>::new::<$bps>(), &mut ch);
+            assert!(matches!(res, $pat));
+            std::mem::forget(res);
+        }
+    };
+}
+
+// @harness prop=C04,C05 tier=quick expect=pass timeout=300
+// @units decode::read_subframe<32,i32> stream::SubframeHeader::from_reader
+// @bound reserved type code 0b000010 pinned (the whole reserved table is decided on SubframeHeaderType::from_reader in k_stream.rs)
+// @oracle Err(InvalidSubframeHeaderType)
+sub_reject!(c05_sub_reserved_type_2, 16, 2, 4, [(0, 0), (1, 2)], 2, Err(Error::InvalidSubframeHeaderType));
+
+// @harness prop=C04,C05 tier=quick expect=pass timeout=300
+// @units decode::read_subframe<32,i32> stream::SubframeHeader::from_reader
+// @bound reserved type code 0b001101 pinned
+// @oracle Err(InvalidSubframeHeaderType)
+sub_reject!(c05_sub_reserved_type_13, 16, 2, 4, [(0, 0), (1, 13)], 2, Err(Error::InvalidSubframeHeaderType));
+
+// @harness prop=C04,C05 tier=quick expect=pass timeout=300
+// @units decode::read_subframe<32,i32> stream::SubframeHeader::from_reader
+// @bound subframe padding bit set
+// @oracle Err(InvalidSubframeHeader)
+sub_reject!(c05_sub_padding_bit_set, 16, 2, 4, [(0, 1)], 1, Err(Error::InvalidSubframeHeader));
+
+// @harness prop=C05 tier=quick expect=pass timeout=300
+// @units decode::read_lpc_subframe
+// @bound LPC order 1, 16 bps, block 3, precision field pinned to 0b1111
+// @oracle Err(InvalidQlpPrecision)
+sub_reject!(c05_sub_lpc_precision_1111, 16, 3, 12, [(0, 0), (1, 32), (2, 0), (4, 15)], 5, Err(Error::InvalidQlpPrecision));
+
+// @harness prop=C05 tier=quick expect=pass timeout=300
+// @units decode::read_lpc_subframe
+// @bound LPC order 1, 16 bps, block 3, precision pinned to a legal value, 5-bit shift field pinned to 0b10000 (-16)
+// @oracle Err(NegativeLpcShift)
+sub_reject!(c05_sub_lpc_negative_shift_m16, 16, 3, 12, [(0, 0), (1, 32), (2, 0), (4, 5), (5, 16)], 6, Err(Error::NegativeLpcShift));
+
+// @harness prop=C05 tier=quick expect=pass timeout=300
+// @units decode::read_lpc_subframe
+// @bound as above with shift field 0b11111 (-1)
+// @oracle Err(NegativeLpcShift)
+sub_reject!(c05_sub_lpc_negative_shift_m1, 16, 3, 12, [(0, 0), (1, 32), (2, 0), (4, 5), (5, 31)], 6, Err(Error::NegativeLpcShift));
+
+// @harness prop=C05 tier=quick expect=pass timeout=300
+// @units decode::read_residuals
+// @bound FIXED order 0, block 2, residual coding method pinned to 2 and to 3
+// @oracle Err(InvalidCodingMethod)
+sub_reject!(c05_sub_coding_method_2, 16, 2, 8, [(0, 0), (1, 8), (2, 0), (3, 2)], 4, Err(Error::InvalidCodingMethod));
+
+// @harness prop=C05 tier=quick expect=pass timeout=300
+// @units decode::read_residuals
+// @bound as above with method 3
+// @oracle Err(InvalidCodingMethod)
+sub_reject!(c05_sub_coding_method_3, 16, 2, 8, [(0, 0), (1, 8), (2, 0), (3, 3)], 4, Err(Error::InvalidCodingMethod));
+
+// @harness prop=C05 tier=quick expect=pass timeout=300
+// @units decode::read_fixed_subframe
+// @bound FIXED order 4 in a block of 3 samples (order exceeds the block)
+// @oracle Err(InvalidFixedOrder)
+sub_reject!(c05_sub_fixed_order_exceeds_block, 16, 3, 8, [(0, 0), (1, 12), (2, 0)], 3, Err(Error::InvalidFixedOrder));
+
+// @harness prop=C05 tier=quick expect=pass timeout=300
+// @units decode::read_lpc_subframe
+// @bound LPC order 4 in a block of 3 samples
+// @oracle Err(InvalidLpcOrder)
+sub_reject!(c05_sub_lpc_order_exceeds_block, 16, 3, 8, [(0, 0), (1, 35), (2, 0)], 3, Err(Error::InvalidLpcOrder));
+
+// @harness prop=C05 tier=quick expect=pass timeout=300
+// @units decode::read_residuals::read_block
+// @bound FIXED order 1, block 5 (odd), partition order 1: the block is not divisible by the partition count
+// @oracle Err(InvalidPartitionOrder)
+sub_reject!(c05_sub_partition_not_dividing, 16, 5, 20, [(0, 0), (1, 9), (2, 0), (4, 0), (5, 1)], 6, Err(Error::InvalidPartitionOrder));
 
 macro_rules! c04_predict_fixed {
     ($name:ident, $order:expr, $n:expr) => {
@@ -212,55 +452,58 @@ macro_rules! c04_restore {
     };
 }
 
+// @harness prop=C04 tier=thorough expect=pass timeout=600
+// @units decode::read_subframes(LeftSide) decode::read_subframe audio::Frame::resized_stereo
+// @bound block size 2, stereo LeftSide, 16 bits-per-sample, 4 arbitrary in-type samples (VERBATIM subframes)
+c04_restore!(c04_restore_leftside_b16, ChannelAssignment::LeftSide, BitsPerSample::Bps16);
+
+// @harness prop=C04 tier=thorough expect=pass timeout=600
+// @units decode::read_subframes(LeftSide) decode::read_subframe audio::Frame::resized_stereo
+// @bound block size 2, stereo LeftSide, 31 bits-per-sample (STREAMINFO-referenced; side channel fills an i32), 4 arbitrary in-type samples (VERBATIM subframes)
+c04_restore!(c04_restore_leftside_b31, ChannelAssignment::LeftSide, BitsPerSample::Streaminfo(sbc32(31)));
+
 // @harness prop=C04 tier=quick expect=pass timeout=600
 // @units decode::read_subframes(LeftSide) decode::read_subframe audio::Frame::resized_stereo
-// @bound block size 2, stereo LEFT_SIDE, STREAMINFO-referenced bit depth 1..=31 symbolic, 4 arbitrary in-type samples
-c04_restore!(c04_restore_leftside, ChannelAssignment::LeftSide, {
-    let b = any_bps32();
-    kani::assume(u32::from(b) < 32);
-    BitsPerSample::Streaminfo(b)
-});
+// @bound block size 2, stereo LeftSide, 32 bits-per-sample (33-bit side channel, i64 path), 4 arbitrary in-type samples (VERBATIM subframes)
+c04_restore!(c04_restore_leftside_b32, ChannelAssignment::LeftSide, BitsPerSample::Bps32);
 
 // @harness prop=C04 tier=quick expect=pass timeout=600
-// @units decode::read_subframes(SideRight)
-// @bound block size 2, stereo SIDE_RIGHT, bit depth 1..=31 symbolic, 4 arbitrary in-type samples
-c04_restore!(c04_restore_sideright, ChannelAssignment::SideRight, {
-    let b = any_bps32();
-    kani::assume(u32::from(b) < 32);
-    BitsPerSample::Streaminfo(b)
-});
+// @units decode::read_subframes(SideRight) decode::read_subframe audio::Frame::resized_stereo
+// @bound block size 2, stereo SideRight, 16 bits-per-sample, 4 arbitrary in-type samples (VERBATIM subframes)
+c04_restore!(c04_restore_sideright_b16, ChannelAssignment::SideRight, BitsPerSample::Bps16);
+
+// @harness prop=C04 tier=thorough expect=pass timeout=600
+// @units decode::read_subframes(SideRight) decode::read_subframe audio::Frame::resized_stereo
+// @bound block size 2, stereo SideRight, 31 bits-per-sample (STREAMINFO-referenced; side channel fills an i32), 4 arbitrary in-type samples (VERBATIM subframes)
+c04_restore!(c04_restore_sideright_b31, ChannelAssignment::SideRight, BitsPerSample::Streaminfo(sbc32(31)));
+
+// @harness prop=C04 tier=thorough expect=pass timeout=600
+// @units decode::read_subframes(SideRight) decode::read_subframe audio::Frame::resized_stereo
+// @bound block size 2, stereo SideRight, 32 bits-per-sample (33-bit side channel, i64 path), 4 arbitrary in-type samples (VERBATIM subframes)
+c04_restore!(c04_restore_sideright_b32, ChannelAssignment::SideRight, BitsPerSample::Bps32);
+
+// @harness prop=C04 tier=thorough expect=pass timeout=600
+// @units decode::read_subframes(MidSide) decode::read_subframe audio::Frame::resized_stereo
+// @bound block size 2, stereo MidSide, 16 bits-per-sample, 4 arbitrary in-type samples (VERBATIM subframes)
+c04_restore!(c04_restore_midside_b16, ChannelAssignment::MidSide, BitsPerSample::Bps16);
 
 // @harness prop=C04 tier=quick expect=pass timeout=600
-// @units decode::read_subframes(MidSide)
-// @bound block size 2, stereo MID_SIDE, bit depth 1..=31 symbolic, 4 arbitrary in-type samples
-c04_restore!(c04_restore_midside, ChannelAssignment::MidSide, {
-    let b = any_bps32();
-    kani::assume(u32::from(b) < 32);
-    BitsPerSample::Streaminfo(b)
-});
+// @units decode::read_subframes(MidSide) decode::read_subframe audio::Frame::resized_stereo
+// @bound block size 2, stereo MidSide, 31 bits-per-sample (STREAMINFO-referenced; side channel fills an i32), 4 arbitrary in-type samples (VERBATIM subframes)
+c04_restore!(c04_restore_midside_b31, ChannelAssignment::MidSide, BitsPerSample::Streaminfo(sbc32(31)));
 
-// @harness prop=C04 tier=quick expect=pass timeout=600
-// @units decode::read_subframes(LeftSide,32bps) decode::read_subframe<33,i64>
-// @bound block size 2, LEFT_SIDE at 32 bits-per-sample (33-bit side channel path)
-c04_restore!(c04_restore_leftside_32, ChannelAssignment::LeftSide, BitsPerSample::Bps32);
-
-// @harness prop=C04 tier=quick expect=pass timeout=600
-// @units decode::read_subframes(SideRight,32bps)
-// @bound block size 2, SIDE_RIGHT at 32 bits-per-sample (33-bit side channel path)
-c04_restore!(c04_restore_sideright_32, ChannelAssignment::SideRight, BitsPerSample::Bps32);
-
-// @harness prop=C04 tier=quick expect=pass timeout=600
-// @units decode::read_subframes(MidSide,32bps)
-// @bound block size 2, MID_SIDE at 32 bits-per-sample (33-bit side channel path)
-c04_restore!(c04_restore_midside_32, ChannelAssignment::MidSide, BitsPerSample::Bps32);
+// @harness prop=C04 tier=thorough expect=pass timeout=600
+// @units decode::read_subframes(MidSide) decode::read_subframe audio::Frame::resized_stereo
+// @bound block size 2, stereo MidSide, 32 bits-per-sample (33-bit side channel, i64 path), 4 arbitrary in-type samples (VERBATIM subframes)
+c04_restore!(c04_restore_midside_b32, ChannelAssignment::MidSide, BitsPerSample::Bps32);
 
 // @harness prop=C04 tier=quick expect=pass timeout=600
 // @units decode::read_subframes(Independent) audio::Frame::resized_channels
-// @bound block size 2, 2 independent channels, bit depth 1..=32 symbolic
+// @bound block size 2, 2 independent channels, 32 bits-per-sample
 c04_restore!(
-    c04_restore_independent,
+    c04_restore_independent_b32,
     ChannelAssignment::Independent(Independent::Stereo),
-    BitsPerSample::Streaminfo(any_bps32())
+    BitsPerSample::Bps32
 );
 
 // vacuity twin: same harness shape with a final assert(false) must FAIL
@@ -280,3 +523,4 @@ fn c04_restore_midside_twin() {
     }
     std::mem::forget(buf);
 }
+
